@@ -47,7 +47,7 @@ def g_unit(ctx, modname):
     return u
 
 
-ALL_TRANSLATORS = ["translate_core", "translate_driver"]
+ALL_TRANSLATORS = ["translate_core", "translate_driver", "translate_grid"]
 
 
 def refresh_all(ctx):
